@@ -706,7 +706,7 @@ func TestC10BinaryBurst(t *testing.T) {
 		defer cancel()
 		host, err := dialWS(p.addr, nodeIdent(0), 1)
 		if err != nil {
-			rt.Fatalf("dial: %v", err)
+			rt.Fatalf("[setup failed] dial: %v", err)
 		}
 		defer host.end("close")
 		var gmu sync.Mutex
